@@ -102,6 +102,14 @@ EXPECTED_FACTS = {
         "synSp.ToOffset()",
         "synSp.ToOffset()"
     ],
+    "c06_globals_written_after_init": [],
+    "c06_config_reads": [
+        "syncer/input.go: rdbLimiterAcquire: config.GetSyncerConfig().Input.RdbLimiter",
+        "syncer/input.go: rdbLimiterRelease: config.GetSyncerConfig().Input.RdbLimiter",
+        "syncer/input.go: checkSyncDelay: config.GetSyncerConfig().Input.SyncDelayTestKey",
+        "syncer/input.go: pSync: config.GetSyncerConfig().Server.ListenPort",
+        "syncer/channel.go: NewReader: config.GetSyncerConfig().Channel.VerifyCrc"
+    ],
     "c06_psync_gen": [
         "guard=0 add=1 contSub=1 contId=1 fullMin=3 fullId=1 fullOff=2 base=10 bits=64"
     ],
@@ -328,6 +336,29 @@ PROP = {
             "saw (read through the channel's query API at that moment) go to the Lean `syncMetaG`; compared: branch, PSYNC line, reply, "
             "DelRunId, run id, writer start, reader start. Monitors: psync-offset-convention, continue-later-start, continue-not-granted, "
             "stream-bytes, snapshot-bytes, snapshot-behind-stored, cache-label, cache-bytes (read-back after both connections). "
+            "DIMENSION AUDIT (session 5, last round) - options, degenerate inputs, the other side's state and process-global state that are now "
+            "DRAWN, each with a coverage counter in the evidence: channel.verifyCrc (cfg_verifyCrc_<v>_<backend>: on for the disk cases with an "
+            "odd history seed in sessions C06 / C06c, at the odd collector points and for every forced case in C06d, whenever every snapshot "
+            "involved is a real RDB or at most 8 bytes - a PRF snapshot of more than 8 bytes has no CRC trailer and a verifying reader rightly "
+            "refuses it: cfg_verifyCrc_not_drawn_prf_snapshot_over_8_bytes; 2/3 of those cases are generated with snapshots of <= 8 bytes); "
+            "channel type / storer.logSize / process restart / resumeFromBreakPoint (cfg_channel_*, cfg_storer_logSize_*, "
+            "cfg_process_restart_*, cfg_resumeFromBreakPoint_*); input.rdbParallel = 1 in session C06d (cfg_rdbParallel_1) and the "
+            "process-wide snapshot limiter judged after EVERY run() of the sequential sessions (monitor rdb-limiter-leak, "
+            "global_rdb_limiter_checked: a slot not given back, or given back twice, on any of fetchInput / syncData's seven paths); "
+            "output.StartPoint answering at the 1st / 2nd / 3rd try or never (cfg_outputStartPoint_tries_01 / 001 / 000 / conn; 001 was not "
+            "drawn before); a TRANSIENT INFO failure followed by real connections on the unchanged cache and position (fault plan `info`); "
+            "a target that is not the tool's alone in half of the attempt ops (tgt_foreign_records_seeded: another syncer's checkpoint under "
+            "the same run ids far ahead in databases 0 and 7, a record of another run id under the tool's own name far ahead, plain data in "
+            "databases 3 and 9 - output.StartPoint must answer what it answered before: monitor foreign-record-read; every checkpoint read / "
+            "write of the non-bisync path opens its own connection and closes it, ResetStartPoint selects database 0 before the bisync purge: "
+            "nothing reads the target on a connection GetCheckpoint left in another database); 14 FORCED degenerate-but-legal cases x "
+            "{memory, disk, disk+verifyCrc} with a follow-up connection each (deg_*: cached / fresh snapshot of 1 byte, FULLRESYNC at offset "
+            "0, source and position at offset 0, stored offset 0 with a log from 0, stored = cache right (source busy / idle: a stream of 0 "
+            "bytes), one beyond the cache, beyond the master, under an unknown id, snapshot-only / log-only / empty cache; a forced case "
+            "that delivers nothing is run-aborted); a disk store holding the directories of TWO run ids (previous and current, cfg_cache_two_run_id_directories_crc<v>: "
+            "channel.StartPoint must pick the current id's directory and the log delivered from a position labelled with the previous id, "
+            "inside the shared prefix, must be the current history's); process-global state as source facts (c06_globals_written_after_init = none, "
+            "c06_config_reads = the five values the anchors read from the process-wide configuration). "
             "Scenario crc (2 per run): verifyCrc on, a closed segment of the disk cache damaged on disk; `entry` = the segment the reader is "
             "opened in: the real Run() against an idle source must drop the cache and leave the loop after ONE attempt (counted by the INFO "
             "commands served; three attempts on the same damaged cache = corrupted-cache-kept; found the defect fixed by feb3ca9); `next` = a "
@@ -423,7 +454,8 @@ PROP = {
         "and the 3 x 2 s retries are events without duration; termination = `run_stopped_fixed` after ErrBreak / Stop only - a loop that "
         "never meets ErrBreak runs for ever by design); the Stage of a failed attempt is compared for failures injected between calls and "
         "after the writer finished - an attempt cut in the middle of the writer's ingestion is covered by the model's `Loop.cache` "
-        "over-approximation, not by a correspondence op; several run-id directories in one disk store; a channel.StartPoint error is "
+        "over-approximation, not by a correspondence op; several run-id directories in one disk store (not modelled; since the dimension audit one forced scenario with two directories is "
+        "run and judged by monitors in session C06d); a channel.StartPoint error is "
         "proved at the decision level (locErr_clears: cache dropped, branch 3/6) and compared for decision + cache afterwards, its "
         "byte-level outcome theorem is the cleared-cache case of outcome_continue_or_full by analogy, not by a theorem about `runL`; "
         "VerifyRunId's side effect (SetRunId before it fails) is not injected; diskless replies are refused before anything changes "
